@@ -16,6 +16,12 @@ package sequence
 // respWF: the response, if any, is a well-formed message of its own without OPT
 //@ spec func respWF(qCtx *query_context.Context) bool = qCtx.resp != nil ==> noOPT(qCtx.resp.Extra) && qCtx.resp != qCtx.query && wfMsg(qCtx.resp) && okRRs(qCtx.resp.Extra) && (len(qCtx.resp.Question) > 0 ==> qCtx.resp.Question.ref != qCtx.query.Question.ref)
 
+// BQ.M: documented in quick_setup.go as "M returns a non-nil *coremain.Mosdns". Assumed of every
+// implementation (the same assumption as coremain.BP.M), so that GetPlugin's `m != nil` is met.
+//@ interface BQ.M
+//@   params self
+//@   ensures result != nil
+
 // Behavioural contract every Executable (plugin, sequence, wrapped chain) must meet (C03, C15):
 // the query's ID and question are the same on return as on entry, the context still holds the
 // same query, client OPT and response OPT, and the response it leaves — if any — answers that
